@@ -10,7 +10,9 @@ From GT Require Import Base.UTree Model.Reroot Model.Prune Model.Collapse Model.
      Proofs.HeapNocheck Proofs.HeapGraftSq Proofs.HeapPermute Proofs.HeapPruneTotal Proofs.HeapLoops Proofs.HeapRerootL
      Proofs.HeapNNI Proofs.HeapNNIMain
      Model.History Proofs.NNIBase Proofs.HeapCollapseTree Proofs.HeapPaths Proofs.HeapCollapseSq Proofs.HeapNNISq Proofs.HeapNNIUndoSq
-     Proofs.HeapPruneTree Proofs.HeapPruneSq Proofs.HeapRotateSq Proofs.HeapLoopsTotal Proofs.HeapHistory.
+     Proofs.HeapPruneTree Proofs.HeapPruneSq Proofs.HeapRotateSq Proofs.HeapLoopsTotal Proofs.HeapHistory
+     Model.HeapEdit2 Proofs.HeapCtx Proofs.HeapSortSq Proofs.HeapSingle Proofs.HeapSingleSq.
+From GT Require Model.LocalEdit.
 Import ListNotations.
 Local Close Scope Q_scope.
 Local Open Scope string_scope.
@@ -597,7 +599,7 @@ Proof. exact run_hop_square. Qed.
 Print Assumptions C03Heap_run_hop_square.
 
 (** any history over {Reroot, reroot_nocheck, UnRoot, GraftTipOnEdge, RemoveEdges(one branch),
-    nni.Apply, removeTip(by name), RotateInternalNodes}: the heap stays good and represents
+    nni.Apply, removeTip(by name), RotateInternalNodes, SortNeighborsByTips, RemoveSingleNodes}: the heap stays good and represents
     the tree the same history gives on the tree model *)
 Theorem C03Heap_history : forall ops h t h', Good h -> abs h = Some t -> run_heap ops h = HOk h' ->
   Good h' /\ exists t', run_tree ops t = Ok t' /\ abs h' = Some t' /\ wf t' = true.
@@ -607,7 +609,8 @@ Print Assumptions C03Heap_history.
 (** the alphabet of these histories and Model/History.v agree where they overlap *)
 Theorem C03Heap_history_links : forall t,
   (forall i, run_hop_tree (HReroot i) t = run_op (OReroot i) t) /\ run_hop_tree HUnroot t = run_op OUnroot t /\
-  (forall cs, run_hop_tree (HRotate cs) t = run_op (ORotate cs) t).
+  (forall cs, run_hop_tree (HRotate cs) t = run_op (ORotate cs) t) /\
+  run_hop_tree HSort t = run_op OSort t /\ run_hop_tree HRmSingle t = run_op ORmSingle t.
 Proof. intros t. repeat split; reflexivity. Qed.
 Print Assumptions C03Heap_history_links.
 
@@ -620,3 +623,41 @@ Example C03Heap_run_mixed_history :
   end = true.
 Proof. vm_compute. reflexivity. Qed.
 Print Assumptions C03Heap_run_mixed_history.
+
+(** SortNeighborsByTips: the square against Model/Reroot.v [sort_by_tips] (always succeeds) *)
+Theorem C03Heap_sort_square : forall h t, Good h -> abs h = Some t ->
+  exists h', sort_neighbors_by_tips_heap h = HOk h' /\ Good h' /\ abs h' = Some (sort_by_tips t).
+Proof. exact sort_neighbors_square. Qed.
+Print Assumptions C03Heap_sort_square.
+
+Example C03Heap_run_sort :
+  match sort_neighbors_by_tips_heap (heap_of hx_deep) with
+  | HOk h' => abs_is h' (sort_by_tips hx_deep)
+  | _ => false
+  end = true.
+Proof. vm_compute. reflexivity. Qed.
+Print Assumptions C03Heap_run_sort.
+
+(** RemoveSingleNodes: the suppression of one node with two neighbours, on a represented heap *)
+Theorem C03Heap_rs_suppress_Rep : forall h lt p P0 nmP cmP l1 l2 eP0 eiP i nmi cmi (pfirst : bool) eC eiC C nmC cmC slC, Rep h lt ->
+  let sli := if pfirst then [None; Some (eC, eiC, LNode C nmC cmC slC)] else [Some (eC, eiC, LNode C nmC cmC slC); None] in
+  In (p, LNode P0 nmP cmP (l1 ++ Some (eP0, eiP, LNode i nmi cmi sli) :: l2)%list) (lsubs None lt) ->
+  exists h', rs_suppress i P0 eP0 h = HOk h' /\
+    Rep h' (lreplace P0 (LNode P0 nmP cmP ((l1 ++ l2) ++ [Some (eC, LocalEdit.rs_edge eiP eiC, LNode C nmC cmC slC)])%list) lt).
+Proof. exact rs_suppress_Rep. Qed.
+Print Assumptions C03Heap_rs_suppress_Rep.
+
+(** RemoveSingleNodes: the square against Model/LocalEdit.v [remove_single]: always succeeds
+    (the errors that the Go code drops never arise on a good heap) *)
+Theorem C03Heap_remove_single_square : forall h t, Good h -> abs h = Some t ->
+  exists h', remove_single_nodes_heap h = HOk h' /\ Good h' /\ abs h' = Some (LocalEdit.remove_single t).
+Proof. exact remove_single_nodes_square. Qed.
+Print Assumptions C03Heap_remove_single_square.
+
+Example C03Heap_run_remove_single :
+  forallb (fun i => match remove_single_nodes_heap (heap_of (rr_at hx_chain i)) with
+                    | HOk h' => abs_is h' (LocalEdit.remove_single (rr_at hx_chain i))
+                    | _ => false
+                    end) (seq 0 6) = true.
+Proof. vm_compute. reflexivity. Qed.
+Print Assumptions C03Heap_run_remove_single.
